@@ -418,6 +418,30 @@ def run(tier='quick', repo=None):
             not any(c.startswith('upump_common_') and not re.fullmatch(want, c) for c in calls)
         rep.add('R-pump-control', cmd, HOLDS if ok else VIOLATED, ctl.loc,
                 **({'calls': calls} if ok else {'what': 'case %s calls %s, expected %s' % (cmd, calls, want)}))
+    # the manager's real_start / real_stop act on the watcher unconditionally
+    rep.rule('R-pump-real', 'upump_ev_real_start / upump_ev_real_stop: every case of the switch on the pump type reaches the ev_<type>_start / ev_<type>_stop '
+             'call on every path - the common layer has already decided that the watcher must be (in)active, and ev_<type>_stop is also what discards an '
+             'event that is pending but not yet dispatched: a stop that depends on a second opinion (ev_is_active) lets the call-back of an expired '
+             'one-shot timer run after upump_stop, while blocked, or after the pump was freed')
+    uev = prog.units.get('lib/upump-ev/upump_ev.c')
+    if uev is None:
+        raise facts.AnalysisBroken('anchor vanished: lib/upump-ev/upump_ev.c')
+    for fname, pat in (('upump_ev_real_start', r'ev_\w+_start'), ('upump_ev_real_stop', r'ev_\w+_stop')):
+        f = uev.funcs.get(fname)
+        if f is None or not f.blocks:
+            raise facts.AnalysisBroken('anchor vanished: %s' % fname)
+        evf = pr.Events(f)
+        ncase = 0
+        for bid in sorted(f.blocks):
+            lab = f.label(bid)
+            if not lab or lab.get('k') != 'case':
+                continue
+            ncase += 1
+            _, ex = evf.reach((bid, -1), lambda n: False, pr.m_call(pat))
+            rep.add('R-pump-real', '%s:case-%s' % (fname, lab.get('n') or lab.get('v')), VIOLATED if ex else HOLDS, ('%s:%s' % (f.file, lab.get('l'))) if lab.get('l') else f.loc,
+                    **({'what': '%s: a path from this case to the end of the function does not call %s' % (fname, pat)} if ex else {}))
+        if ncase < 4:
+            raise facts.AnalysisBroken('%s: only %d cases found' % (fname, ncase))
     # clean: callback inside the loop
     fn = u.funcs['upump_common_clean']
     ev = pr.Events(fn)
